@@ -136,6 +136,15 @@ func (t *Term) smt() string {
 			sb.WriteString("(" + smtName(b.Name) + " " + string(b.Sort) + ")")
 		}
 		sb.WriteString(") ")
+		// z3 rejects patterns that contain an if-then-else; such patterns are dropped (the solver
+		// then infers its own)
+		pats := t.Pats[:0:0]
+		for _, p := range t.Pats {
+			if !hasOp(p, "ite") {
+				pats = append(pats, p)
+			}
+		}
+		t = &Term{Op: t.Op, Bound: t.Bound, Args: t.Args, Pats: pats, AltPats: t.AltPats, Sort: t.Sort}
 		if len(t.Pats) > 0 && t.AltPats {
 			sb.WriteString("(! " + t.Args[0].String())
 			for _, p := range t.Pats {
@@ -959,6 +968,21 @@ func mentionsAny(t *Term, names map[string]bool) bool {
 	}
 	for _, a := range t.Args {
 		if mentionsAny(a, names) {
+			return true
+		}
+	}
+	return false
+}
+
+func hasOp(t *Term, op string) bool {
+	if t == nil {
+		return false
+	}
+	if t.Op == op {
+		return true
+	}
+	for _, a := range t.Args {
+		if hasOp(a, op) {
 			return true
 		}
 	}
